@@ -12,7 +12,7 @@ CONSTANTS
   TextLens <- L_5
   DataLens <- L_04
   MediaLens <- L_7
-  SseCounts <- S_2
+  SseScripts <- S_q
   PresetCLs <- CL_3
 INVARIANT ExactlyOneStart
 INVARIANT OnlyLastHasNoMoreBody
